@@ -19,6 +19,7 @@ Variable cname : port -> str.
 Theorem setup_clean_inverse : forall (t : table) (ps : list port),
   has_chain hostports t = true ->
   NoDup (map cname ps) ->
+  (forall p, In p ps -> proto_plain p) ->
   (forall p, In p ps -> fresh_chain t (cname p)) ->
   exists t1 t2, setup cname ps t = (t1, true) /\ clean cname ps t1 = (t2, true) /\
     forall c, c <> markmasq -> tlookup c t2 = tlookup c t.
